@@ -38,6 +38,7 @@ def _case(draw):
     c["perm_seed"] = draw(st.integers(0, 1000))
     c["bare"] = draw(st.booleans())   # log_prob of the base distribution itself (identity transform)
     c["embed"] = draw(st.booleans())       # flows: context through an embedding network
+    c["sample_first"] = draw(st.booleans())
     c["dup_ctx"] = draw(st.booleans())     # repeated context rows in cycled (unsorted) order: o0 o1 o2 o0 o1 o2
     if draw(st.integers(0, 3)) == 0:
         from vf.props.c13 import _add_dropout
@@ -119,6 +120,14 @@ def run_case(case):
                 res.labels.append("embedding_net")
             flow = Flow(m, base, embedding_net=emb)
             flow.eval()
+            if case.get("sample_first") and case["base"] != "diagonal":
+                # the flow has sampled before it is asked for densities (evaluation mode throughout)
+                try:
+                    with torch.no_grad():
+                        flow.sample(2, ctx[:1] if ctx is not None else None)
+                    res.labels.append("sampled_before")
+                except Exception:
+                    pass
             res.labels.append("base:" + case["base"])
             if target == "log_prob":
                 f = lambda Z, C, o=None: ((o or copy.deepcopy(flow)).log_prob(Z, C),)  # noqa  (fresh copy per evaluation: state must not leak)
